@@ -137,6 +137,31 @@ def gen_query(rng, tier):
     return None
 
 
+def parent_adjustment(joint, xs, zs, ys, card):
+    """sum_z P(y | x, z) P(z) over the model joint, as a model-style factor over `ys` (exact rationals)"""
+    xd = dict((x, s) for x, s in xs)
+    ys = list(ys)
+    out = []
+    ycard = [card[y] for y in ys]
+    table = {}
+    for asg in core.all_assignments(joint["scope"], joint["card"]):
+        table[tuple(asg[v] for v in joint["scope"])] = core.model_value(joint, asg)
+    pos = {v: i for i, v in enumerate(joint["scope"])}
+
+    def mass(fixed):
+        return sum(val for key, val in table.items() if all(key[pos[v]] == s for v, s in fixed.items()))
+    for yasg in core.all_assignments(ys, ycard):
+        tot = Fraction(0)
+        for zasg in core.all_assignments(zs, [card[z] for z in zs]):
+            pxz = mass({**xd, **zasg})
+            if pxz == 0:
+                continue
+            tot += mass({**xd, **zasg, **yasg}) / pxz * mass(zasg)
+        out.append(tot)
+    z = sum(out)
+    return {"scope": ys, "card": ycard, "vals": [str(v / z) if z else "0" for v in out]}
+
+
 def run_query(case, drv):
     from pgmpy.inference import CausalInference
     from harness.props.c03 import connected
@@ -191,8 +216,16 @@ def run_query(case, drv):
             return fail(f"query(do={do}, adjustment_set={adj}, {case['algo']}) raised {type(e).__name__}: {e}", **tags)
         err = compare_factor(res, m["post"], names, card, labels)
         if err:
-            return fail(f"P({[pn[v] for v in case['Y']]} | do({do})) with adjustment_set={adj} ({case['algo']}): {err} "
-                        f"[edges {[(pn[u], pn[v]) for u, v in case['edges']]}]", **tags)
+            msg = (f"P({[pn[v] for v in case['Y']]} | do({do})) with adjustment_set={adj} ({case['algo']}): {err} "
+                   f"[edges {[(pn[u], pn[v]) for u, v in case['edges']]}]")
+            # does the answer equal the parents-as-adjustment-set formula  sum_z P(y | x, z) P(z)  (z = parents of the do-variables)?
+            pa = None
+            if adj is None:
+                try:
+                    pa = compare_factor(res, parent_adjustment(joint, case["X"], sorted(set(pz)), case["Y"], card), names, card, labels) is None
+                except Exception:
+                    pa = None
+            return fail({"msg": msg, "adjustment_set": None if adj is None else sorted(adj), "equals_parent_adjustment": pa}, **tags)
     par = any(c in X for _, c in case["edges"])
     return ok(nontrivial=par or len(X) > 1, **tags)
 
